@@ -4,7 +4,8 @@ expect = violation (the property's check must report it) | does-not-apply (a lat
 import json, subprocess, os
 V = os.path.dirname(os.path.dirname(os.path.abspath(__file__)))
 NOT_COVERED = {"5d6e93d": "used-length accounting in _fast_append: a value relation, no rule",
-               "fb78590": "encode_array::shift is listed as not decided by LINBUF since the fix (LINBUF_CXX_EXCLUDED)"}
+               "fb78590": "encode_array::shift is listed as not decided by LINBUF since the fix (LINBUF_CXX_EXCLUDED)",
+               "21055d5": "whether the clone's text pointer is set follows the source's current element kind: a condition on the right object, no rule (DERIVEDFIELD holds either way)"}
 k = json.load(open(os.path.join(V, "known_findings.json")))
 idx = []
 for e in k["fixed"]:
